@@ -305,8 +305,17 @@ func runC08(c *core.Ctx) {
 						if err != nil {
 							panic(core.EngineError{Msg: "schema rejected: " + err.Error()})
 						}
-						for phase, sch := range []*world.Schema{sBefore, sAfter} {
+						// in between: the same extension written so that it fails INSIDE the block, after its new interface / member was
+						// added (the name a second time): refused, and the requests answer as before
+						refused := strings.Replace(strings.Replace(ext, "implements Named", "implements Named & Named", 1), "= "+tn, "= "+tn+" | "+tn, 1)
+						for phase, sch := range []*world.Schema{sBefore, sBefore, sAfter} {
 							if phase == 1 {
+								if err := root.ParseString(refused); err == nil {
+									c.Count("refused_extension_was_accepted") // then it is a valid way to write it: nothing to check
+									continue
+								}
+							}
+							if phase == 2 {
 								if err := root.ParseString(ext); err != nil {
 									c.Violation("extension-refused", map[string]string{"part": "growth", "binding": b.name}, map[string]interface{}{"sdl": sBefore.SDL(), "extension": ext, "error": err.Error()})
 									break
@@ -326,7 +335,7 @@ func runC08(c *core.Ctx) {
 									continue
 								}
 								c.Outcome("growth-" + kind)
-								attrs := map[string]string{"part": "growth", "binding": b.name, "phase": []string{"before", "after"}[phase]}
+								attrs := map[string]string{"part": "growth", "binding": b.name, "phase": []string{"before", "after-refused-extension", "after"}[phase]}
 								if kind == "panic" {
 									attrs["site"], attrs["class"] = o.Panic.Site, o.Panic.Class
 								}
